@@ -186,7 +186,8 @@ public:
   template<class Matrix, class Scalar>
   static void fillDiag(Matrix& M, Scalar x)
   {
-    for (size_t i = 0; i < M.getNumberOfRows(); i++)
+    size_t n = std::min(M.getNumberOfRows(), M.getNumberOfColumns());
+    for (size_t i = 0; i < n; i++)
     {
       M(i, i) = x;
     }
